@@ -176,6 +176,7 @@ func (t *Tr) instr(in ssa.Instruction) {
 		t.mapUpdate(x)
 	case *ssa.Range:
 		t.vals[x] = &Val{T: t.term(x.X), KnownLen: -1}
+		t.rangeStart(x)
 	case *ssa.Next:
 		t.next(x)
 	case *ssa.Call:
@@ -847,6 +848,32 @@ func (t *Tr) mapUpdate(x *ssa.MapUpdate) {
 	t.c.set(st, compMapVal(mt), store(val, m, store(sel(val, m), k, v)))
 }
 
+// compVisited: the component holding the set of keys a map range loop has produced so far.
+func compVisited(fn *ssa.Function, r *ssa.Range) string {
+	return "VIS:" + funcKey(fn) + ":" + r.Name()
+}
+
+// rangeStart: a range over a map begins with an empty visited set; the map's domain at that moment is remembered.
+func (t *Tr) rangeStart(x *ssa.Range) {
+	mm, ok := x.X.Type().Underlying().(*types.Map)
+	if !ok {
+		return
+	}
+	c := t.c
+	mt := x.X.Type()
+	t.regMap(mt)
+	ks := c.sortOf(mm.Key())
+	vc := compVisited(t.fn, x)
+	c.regComp(vc, arrSort(ks, SBool))
+	c.set(t.curSt, vc, Term{fmt.Sprintf("((as const %s) false)", arrSort(ks, SBool)), arrSort(ks, SBool)})
+	if t.rangeDom0 == nil {
+		t.rangeDom0 = map[*ssa.Range]Term{}
+	}
+	d0 := c.fresh("rangedom", arrSort(ks, SBool))
+	c.assert(eq(d0, sel(c.get(t.curSt, compMapDom(mt)), t.term(x.X))))
+	t.rangeDom0[x] = d0
+}
+
 func (t *Tr) next(x *ssa.Next) {
 	c := t.c
 	st := t.curSt
@@ -869,6 +896,21 @@ func (t *Tr) next(x *ssa.Next) {
 		kv = t.havocVal(x.Name()+".k", mm.Key())
 	}
 	c.assert(implies(ok, t.mapHas(st, mt, m, kv.T)))
+	// the keys this range loop has produced so far (spec function visited(k) in the loop's invariants): a key is
+	// produced at most once; when the iteration ends every key that was in the map when it began and still is there
+	// has been produced (Go: an entry removed before it is reached is not produced; for an entry ADDED during the
+	// iteration nothing is claimed)
+	if vc := compVisited(t.fn, rng); t.c.compSort[vc] != "" {
+		vis := c.get(st, vc)
+		c.assert(implies(ok, not(sel(vis, kv.T))))
+		c.set(st, vc, ite(ok, store(vis, kv.T, tTrue), vis))
+		if d0, has := t.rangeDom0[rng]; has {
+			q := sym("q!vk")
+			domNow := sel(c.get(st, compMapDom(mt)), m)
+			c.assert(implies(not(ok), Term{fmt.Sprintf("(forall ((%s %s)) (! (=> (and (select %s %s) (select %s %s)) (select %s %s)) :pattern ((select %s %s)) :pattern ((select %s %s))))",
+				q, c.sortOf(mm.Key()), d0.S, q, domNow.S, q, vis.S, q, vis.S, q, domNow.S, q), SBool}))
+		}
+	}
 	val := sel(sel(c.get(st, compMapVal(mt)), m), kv.T)
 	vn := c.fresh(x.Name()+".v", val.Sort)
 	c.assert(eq(vn, val))
